@@ -585,6 +585,98 @@ Proof.
     now exists a, c.
 Qed.
 
+(* [lex_error_at_opener] does not say WHICH `/*` is meant: for slash star blank
+   slash star blank x both a = [] and a = slash star blank fit.  The opener is the
+   one whose prefix ends outside every comment ([ends_in_code]); with that clause
+   the decomposition is unique and the statement is an equivalence. *)
+Lemma after_unclosed : forall pre out o,
+  after pre out (Err (UnclosedAt o)) = Err (UnclosedAt (text_bytes pre + o)).
+Proof. intros pre out o. unfold UnclosedAt. cbn [after]. now rewrite Nat2Z.inj_add. Qed.
+
+Lemma lex_unclosed_after : forall a, ends_in_code a -> forall c, no_close c ->
+  lex_spec (a ++ [47; 42] ++ c) = Err (UnclosedAt (text_bytes a)).
+Proof.
+  intros a Ha. induction Ha as [a Hp|a c0 b Hp Hn Hb IH|a c0 b Hp Hn Hb IH]; intros c Hc.
+  - now apply lex_unclosed.
+  - replace ((a ++ [47; 47] ++ c0 ++ [10] ++ b) ++ [47; 42] ++ c)
+      with (a ++ [47; 47] ++ c0 ++ [10] ++ (b ++ [47; 42] ++ c)) by (now rewrite <- !app_assoc).
+    rewrite (lex_line a c0 _ Hp Hn), (IH c Hc), after_unclosed. do 2 f_equal.
+    replace (a ++ [47; 47] ++ c0 ++ [10] ++ b) with ((a ++ [47; 47] ++ c0 ++ [10]) ++ b)
+      by (now rewrite <- !app_assoc).
+    now rewrite (text_bytes_app _ b).
+  - replace ((a ++ [47; 42] ++ c0 ++ [42; 47] ++ b) ++ [47; 42] ++ c)
+      with (a ++ [47; 42] ++ c0 ++ [42; 47] ++ (b ++ [47; 42] ++ c)) by (now rewrite <- !app_assoc).
+    rewrite (lex_block a c0 _ Hp Hn), (IH c Hc), after_unclosed. do 2 f_equal.
+    replace (a ++ [47; 42] ++ c0 ++ [42; 47] ++ b) with ((a ++ [47; 42] ++ c0 ++ [42; 47]) ++ b)
+      by (now rewrite <- !app_assoc).
+    now rewrite (text_bytes_app _ b).
+Qed.
+
+Lemma lex_error_at_first_unclosed_opener : forall s o,
+  lex_spec s = Err (UnclosedAt o) ->
+  exists a c, s = a ++ [47; 42] ++ c /\ ends_in_code a /\ no_close c /\ o = text_bytes a.
+Proof.
+  intros s. remember (length s) as n eqn:Hlen. revert s Hlen.
+  induction n as [n IH] using lt_wf_ind. intros s Hlen o Herr.
+  destruct (lex_decompose s) as [(H1 & H2)|[(a & c & Hp & Hn & ->)|[(a & c & b & Hp & Hn & ->)|
+    [(a & c & b & Hp & Hn & ->)|(a & c & Hp & Hn & ->)]]]].
+  - rewrite (lex_plain s H1 H2) in Herr. discriminate.
+  - rewrite (lex_line_eof a c Hp Hn) in Herr. discriminate.
+  - rewrite (lex_line a c b Hp Hn) in Herr.
+    destruct (lex_total b) as [(t & E)|(o' & E)]; rewrite E in Herr; [discriminate|].
+    rewrite after_unclosed in Herr. apply (f_equal (fun m => match m with Err e => e | _ => EOther 0 end)) in Herr.
+    apply UnclosedAt_inj in Herr.
+    destruct (IH (length b)) with (s := b) (o := o') as (a' & c' & -> & Ha' & Hc' & ->); auto.
+    { subst n. rewrite !app_length. simpl. lia. }
+    exists (a ++ [47; 47] ++ c ++ [10] ++ a'), c'. repeat split; try assumption.
+    + now rewrite <- !app_assoc.
+    + now apply eic_line.
+    + subst o. replace (a ++ [47; 47] ++ c ++ [10] ++ a') with ((a ++ [47; 47] ++ c ++ [10]) ++ a')
+        by (now rewrite <- !app_assoc). now rewrite (text_bytes_app _ a').
+  - rewrite (lex_block a c b Hp Hn) in Herr.
+    destruct (lex_total b) as [(t & E)|(o' & E)]; rewrite E in Herr; [discriminate|].
+    rewrite after_unclosed in Herr. apply (f_equal (fun m => match m with Err e => e | _ => EOther 0 end)) in Herr.
+    apply UnclosedAt_inj in Herr.
+    destruct (IH (length b)) with (s := b) (o := o') as (a' & c' & -> & Ha' & Hc' & ->); auto.
+    { subst n. rewrite !app_length. simpl. lia. }
+    exists (a ++ [47; 42] ++ c ++ [42; 47] ++ a'), c'. repeat split; try assumption.
+    + now rewrite <- !app_assoc.
+    + now apply eic_block.
+    + subst o. replace (a ++ [47; 42] ++ c ++ [42; 47] ++ a') with ((a ++ [47; 42] ++ c ++ [42; 47]) ++ a')
+        by (now rewrite <- !app_assoc). now rewrite (text_bytes_app _ a').
+  - rewrite (lex_unclosed a c Hp Hn) in Herr.
+    apply (f_equal (fun m => match m with Err e => e | _ => EOther 0 end)) in Herr.
+    apply UnclosedAt_inj in Herr. subst o.
+    exists a, c. repeat split; try assumption. now apply eic_code.
+Qed.
+
+Lemma scalar_bytes_pos : forall c, (1 <= scalar_bytes c)%nat.
+Proof. intro c. rewrite scalar_bytes_utf8_len. apply utf8_len_pos. Qed.
+
+(* two prefixes of one text with the same byte length are the same prefix *)
+Lemma prefix_same_bytes : forall a a' x x',
+  a ++ x = a' ++ x' -> text_bytes a = text_bytes a' -> a = a'.
+Proof.
+  induction a as [|c r IH]; intros [|c' r'] x x' E B; try reflexivity.
+  - rewrite text_bytes_cons in B. pose proof (scalar_bytes_pos c'). cbn in B. lia.
+  - rewrite text_bytes_cons in B. pose proof (scalar_bytes_pos c). cbn in B. lia.
+  - simpl in E. injection E as <- E. rewrite !text_bytes_cons in B.
+    f_equal. apply (IH r' x x' E). lia.
+Qed.
+
+(* at most one `/*` of a text is an opener that is never closed *)
+Lemma unclosed_opener_unique_lex : forall a c a' c',
+  a ++ [47; 42] ++ c = a' ++ [47; 42] ++ c' ->
+  ends_in_code a -> ends_in_code a' -> no_close c -> no_close c' -> a = a' /\ c = c'.
+Proof.
+  intros a c a' c' E Ha Ha' Hc Hc'.
+  pose proof (lex_unclosed_after a Ha c Hc) as L. rewrite E, (lex_unclosed_after a' Ha' c' Hc') in L.
+  apply (f_equal (fun m => match m with Err e => e | _ => EOther 0 end)) in L.
+  apply UnclosedAt_inj in L.
+  assert (a = a') by (apply (prefix_same_bytes a a' _ _ E); now symmetry). subst a'.
+  split; [reflexivity|]. apply app_inv_head in E. now injection E.
+Qed.
+
 (* ------------------------------------------------------------------ *)
 (* positions: the output is the input with comment scalars blanked     *)
 (* (the pre-processor clauses of C04)                                  *)
@@ -852,6 +944,23 @@ Theorem unclosed_comment_location_is_byte_offset_of_opener : forall s o,
   preprocess s = Err (unclosed o) ->
   exists a c, s = a ++ [47; 42] ++ c /\ o = text_bytes a /\ no_close c.
 Proof. intros s o H. rewrite preprocess_refines_lexer in H. now apply lex_error_at_opener. Qed.
+
+(* the reported offset is that of THE opener: the `/*` whose prefix ends outside
+   every comment and that no `*/` follows; there is exactly one such
+   decomposition (next lemma), so o is determined *)
+Theorem unclosed_comment_at_first_unclosed_opener : forall s o,
+  preprocess s = Err (unclosed o) <->
+  exists a c, s = a ++ [47; 42] ++ c /\ ends_in_code a /\ no_close c /\ o = text_bytes a.
+Proof.
+  intros s o. rewrite preprocess_refines_lexer, unclosed_UnclosedAt. split.
+  - apply lex_error_at_first_unclosed_opener.
+  - intros (a & c & -> & Ha & Hc & ->). now apply lex_unclosed_after.
+Qed.
+
+Theorem unclosed_opener_unique : forall a c a' c',
+  a ++ [47; 42] ++ c = a' ++ [47; 42] ++ c' ->
+  ends_in_code a -> ends_in_code a' -> no_close c -> no_close c' -> a = a' /\ c = c'.
+Proof. exact unclosed_opener_unique_lex. Qed.
 
 Theorem preprocess_total : forall s,
   (exists t, preprocess s = Ok t) \/ exists o, preprocess s = Err (unclosed o).
